@@ -361,14 +361,16 @@ def r17_5(ctx, repo):
             continue
         construct = '%s.evaluateS1' % cname
         # returns that are not the last statement of the body: early exits
+        from ..loader import returned_expr
         for r in ast.walk(fn):
-            if r is fn.body[-1]:
+            if r is fn.body[-1] or not isinstance(r, ast.Return) \
+                    or r.value is None:
                 continue
             for _ in (0,):
-                if not (isinstance(r, ast.Return) and isinstance(
-                        r.value, ast.Tuple) and len(r.value.elts) == 2):
+                rv = returned_expr(fn, r)
+                if not (isinstance(rv, ast.Tuple) and len(rv.elts) == 2):
                     continue
-                g = r.value.elts[1]
+                g = rv.elts[1]
                 if not (isinstance(g, ast.Call) and U(g.func) in (
                         'np.full', 'np.zeros', 'np.ones', 'np.empty')):
                     continue
